@@ -4,6 +4,7 @@
 (* reference keyspace.  One ndjson line per event:                         *)
 (*   {"ev":"reset","p":n}                      start of program n          *)
 (*   {"ev":"cmd","p":n,"now":sec,"argv":[[..]],"reply":{k,v,e,a}}          *)
+(*   {"ev":"setup",...} same fields; reply not checked (prelude)           *)
 (* The state is the SET of model states compatible with the replies seen   *)
 (* so far (ambiguity sets, random commands, expiry windows), so validation *)
 (* is one deterministic pass; a command whose reply matches no outcome of  *)
@@ -29,6 +30,9 @@ Step ==
   /\ LET e == Trace[l] IN
      IF e.ev = "reset" THEN cands' = {EmptyState} /\ skip' = FALSE /\ seen' = seen
      ELSE IF skip THEN UNCHANGED <<cands, skip, seen>>
+     ELSE IF e.ev = "setup" THEN   \* prelude command: apply the model's effect, the reply is not checked here
+          /\ cands' = UNION {LET o == OutsOf(s, e) IN {o[i].s : i \in 1..Len(o)} : s \in cands}
+          /\ UNCHANGED <<skip, seen>>
      ELSE LET good == UNION {Good(s, e) : s \in cands}
               labs == {g.b : g \in good} IN
           IF good # {} THEN /\ cands' = {g.s : g \in good} /\ skip' = FALSE
